@@ -534,6 +534,12 @@ func (d *Decoder) LoadParityData() error {
 				}
 			}
 
+			for _, packet := range parityFile.recoveryPackets {
+				if len(packet.data) != d.sliceByteCount {
+					return nil, errors.New("recovery data byte count mismatch")
+				}
+			}
+
 			return &parityFile, nil
 		}()
 		d.delegate.OnParityFileLoad(i+1, match, err)
